@@ -31,8 +31,8 @@ const Outsider = NumAccounts - 1
 
 // NumCrowd further accounts (indices NumAccounts..NumAccounts+NumCrowd-1) exist and are funded; the
 // generator uses them only for crowded order books (bid bursts), so that an auction can have more
-// distinct bidders than the eight regular accounts provide.
-const NumCrowd = 12
+// distinct bidders than the eight regular accounts provide (more than 16 in one settlement).
+const NumCrowd = 24
 
 var (
 	// T0 is the origin of generated time.
